@@ -521,6 +521,44 @@ pub fn worker_main() {
                         findings.push(json!({"class": c, "msg": m, "fault": desc}));
                     }
                 };
+                if layer == "sql" {
+                    // statement-level failures: one SQL statement of the request is aborted (SQLite
+                    // undoes that statement only and leaves the transaction open, as for any
+                    // constraint / out-of-space error inside a statement). Injected from outside with
+                    // a trigger that raises ABORT, created before and dropped after the request.
+                    let dir = sc.s.sut.dir().unwrap().to_path_buf();
+                    for (name, when, event) in [
+                        ("insert-into-versions", "BEFORE", "INSERT ON versions"),
+                        ("update-of-clients", "BEFORE", "UPDATE ON clients"),
+                        ("insert-into-clients", "BEFORE", "INSERT ON clients"),
+                        ("update-of-clients-late", "AFTER", "UPDATE ON clients"),
+                        ("insert-into-versions-late", "AFTER", "INSERT ON versions"),
+                    ] {
+                        let desc = json!({"layer": "sql", "plan": name});
+                        if let Some(o) = &only {
+                            if o != &json!(name) {
+                                continue;
+                            }
+                        }
+                        let d1 = dir.clone();
+                        let d2 = dir.clone();
+                        let sql = format!("CREATE TRIGGER injected_fault {when} {event} BEGIN SELECT RAISE(ABORT, 'injected statement failure'); END;");
+                        let arm = move || {
+                            if let Ok(con) = rusqlite::Connection::open(d1.join(DB_FILE)) {
+                                let _ = con.execute_batch(&sql);
+                            }
+                        };
+                        let disarm = move || -> usize {
+                            if let Ok(con) = rusqlite::Connection::open(d2.join(DB_FILE)) {
+                                let _ = con.execute_batch("DROP TRIGGER IF EXISTS injected_fault;");
+                            }
+                            1
+                        };
+                        let o = run_case(&mut sc, &op, &arm, &disarm, Some(&vf));
+                        record(desc, o, &mut runs, &mut findings);
+                    }
+                    return json!({"runs": runs, "calls": 5, "classes": classes, "findings": findings});
+                }
                 if layer == "trait" {
                     // unfaulted run to count the calls
                     tf.arm(vec![]);
